@@ -1,0 +1,88 @@
+//go:build verif
+
+package ugo
+
+// Contracts (structured comments read by /verif/engine). Comment-only file.
+
+//@ import "github.com/ozanh/ugo/token"
+
+//@ func (Int).Equal
+//@ params o right
+//@ results r
+//@ requires validObj(right)
+//@ ensures r == specEq(o, right)
+//@ property C15
+
+//@ func (Int).BinaryOp
+//@ params o tok right
+//@ results v err
+//@ requires validObj(right)
+//@ ensures[value]    specArithOut(tok, o, right) == oValue ==> err == nil && v == specArithVal(tok, o, right)
+//@ ensures[zerodiv]  specArithOut(tok, o, right) == oZeroDiv ==> err == error(ErrZeroDivision)
+//@ ensures[typeerr]  specArithOut(tok, o, right) == oTypeErr ==> isTypeError(err)
+//@ ensures[undefop]  specArithOut(tok, o, right) == oUndefinedOp ==> specDocumentedError(err)
+//@ ensures[order]    specIsOrderTok(tok) && specScalar(right) && specOrderDefined(o, right) ==> err == nil && v == Object(Bool(specOrder(tok, o, right)))
+//@ ensures[errkind]  err != nil ==> v == nil && specDocumentedError(err)
+//@ cases right: Int, Uint, Float, Char, Bool, String, Bytes, *UndefinedType, other
+//@ cases tok: token.Add, token.Sub, token.Mul, token.Quo, token.Rem, token.And, token.Or, token.Xor, token.AndNot, token.Shl, token.Shr, token.Less, token.LessEq, token.Greater, token.GreaterEq, other
+//@ property C15
+
+//@ func NewOperandTypeError
+//@ results e
+//@ ensures e != nil && e.Cause == error(ErrType)
+//@ property C15
+
+//@ func (Uint).Equal
+//@ params o right
+//@ results r
+//@ requires validObj(right)
+//@ ensures r == specEq(o, right)
+//@ property C15
+
+//@ func (Float).Equal
+//@ params o right
+//@ results r
+//@ requires validObj(right)
+//@ ensures r == specEq(o, right)
+//@ property C15
+
+//@ func (Char).Equal
+//@ params o right
+//@ results r
+//@ requires validObj(right)
+//@ ensures r == specEq(o, right)
+//@ property C15
+
+//@ func (Bool).Equal
+//@ params o right
+//@ results r
+//@ requires validObj(right)
+//@ ensures r == specEq(o, right)
+//@ property C15
+
+//@ func (String).Equal
+//@ params o right
+//@ results r
+//@ requires validObj(right)
+//@ ensures r == specEq(o, right)
+//@ property C15
+
+//@ func (Bytes).Equal
+//@ params o right
+//@ results r
+//@ requires validObj(right)
+//@ ensures r == specEq(o, right)
+//@ property C15
+
+//@ func (*UndefinedType).Equal
+//@ params o right
+//@ results r
+//@ requires validObj(right) && o != nil
+//@ ensures r == specEq(o, right)
+//@ property C15
+
+//@ lemma eqSymmetric
+//@ vars a, b Object
+//@ requires specScalar(a) && specScalar(b)
+//@ ensures specEq(a, b) == specEq(b, a)
+//@ property C15
